@@ -32,6 +32,12 @@ ASSUMPTIONS = [
     "a peer that never reads is observed by draining its socket after the client has gone: what the client wrote before closing is what sits in the kernel buffers",
     "clients that also verify the certificate chain (verify_ssl=True together with TOFU) are run against certificates issued by a CA made by the harness, trusted through SSL_CERT_FILE or through an ssl_context handed to the constructor; a chain that verifies is not a pin that matches",
     "a dropped connection is followed by a queued script of an impostor on the same port: correct code never connects a second time, so the script stays unused",
+    "the client object is also driven as an async context manager (inside a block, after a block, re-entered, and shared by two coroutines whose blocks overlap): "
+    "how the application holds the object is not part of the property, so the same pin check must precede every send",
+    "host names are also spelled as look-alike names and as absolute DNS names with a trailing dot (resolved to 127.0.0.1 by the harness); the pin is made under the "
+    "spelling the URL uses (TOFUDatabase.trust / import_toml / first use), so the check does not depend on whether the code treats 'host.' and 'host' as one host",
+    "look-alike certificates (same issuer + serial number around another key, same key under another serial number; also one issued by the harness CA) stand in for the "
+    "changed certificate and for the impostor behind a dropped connection",
 ]
 LEVEL_TEXT = ("Lean 4 theorems over a hand-written model of the ordered effect trace of GeminiClient._get_single / upload (connect, verify, trust, "
               "send, await, close), for every store, key, presented certificate and payload, lifted to arbitrary histories and redirect chains; the model "
